@@ -668,7 +668,7 @@ func (w *World) Files(oc *OutputCfg, ww *WeatherWorld) FileSet {
 		sep := ";"
 		lo, hi := ww.Spec.FirstDay, ww.Spec.LastDay
 		var skip map[Day]bool
-		dropYear := 0
+		dropYear, emptyYear := 0, 0
 		if f := w.WxFault; f != nil {
 			switch f.Kind {
 			case "end-early":
@@ -679,11 +679,20 @@ func (w *World) Files(oc *OutputCfg, ww *WeatherWorld) FileSet {
 				skip = map[Day]bool{f.Day: true}
 			case "year-missing":
 				dropYear = f.Day.Year()
+			case "year-empty":
+				emptyYear = f.Day.Year()
 			}
 		}
 		for name, content := range ww.Files(w.Cfg.WeatherLayout, w.Cfg.NumHeader, w.FCode, w.eol(), lo, hi, skip, sep) {
 			if dropYear != 0 && w.Cfg.WeatherLayout == 0 && strings.HasSuffix(name, "."+yearExt(dropYear)) {
 				continue
+			}
+			if emptyYear != 0 && w.Cfg.WeatherLayout == 0 && strings.HasSuffix(name, "."+yearExt(emptyYear)) {
+				// the year's file exists but holds its header lines only (an export that was cut short)
+				lines := strings.SplitAfter(content, "\n")
+				if len(lines) > w.Cfg.NumHeader {
+					content = strings.Join(lines[:w.Cfg.NumHeader], "")
+				}
 			}
 			fs["weather/wx/"+name] = content
 		}
